@@ -7,10 +7,13 @@
     multiset of locked prefixes).  The radix-tree representation, its hashing and persistence are
     the subject of C03/C04/C15; here only what the host functions add on top is modelled:
     handle encoding and validation, size limits, charging and memory access.  Energy charged by
-    the tree itself for traversals (iterator_next, delete_prefix) is not modelled: the model
-    charges the scheduled base cost and raises [x_lower] ("energy is a lower bound"). *)
+    the tree itself for traversals (iterator_next, delete_prefix) is modelled EXACTLY through
+    HostTreeEnergy.v: the shape of the tree is the canonical radix tree of the live keys
+    ([live_tree]), and [x_exp] records which nodes have been made owned in the current generation.
+    [x_lower] ("energy is a lower bound") is only raised when the environment forces a lock count
+    to zero while an iterator is alive (cfg hook), which lets the subtree of a live iterator change. *)
 From Coq Require Import NArith List Bool.
-From CB Require Import Gen.HostCosts Contract.HostBase Contract.HostV0.
+From CB Require Import Gen.HostCosts Contract.HostBase Contract.HostV0 Contract.HostTreeEnergy.
 Import ListNotations.
 Local Open Scope N_scope.
 
@@ -59,21 +62,24 @@ Record v1ext : Type := mkExt {
   x_digests : list (list N);              (* oracle: digests returned by the hash functions, in order *)
   x_hashlog : list (N * list N);          (* (kind, data) of every hash call, most recent first *)
   x_unspec : bool;                        (* behaviour outside the model (unused at present) *)
-  x_lower : bool }.                       (* tree traversal happened: charged energy is a lower bound *)
+  x_lower : bool;                         (* charged energy is a lower bound (see above) *)
+  x_exp : list (list N) }.                (* full keys (4-bit chunks) of the tree nodes expanded in this generation *)
 
 Notation H1 := (host v1ext).
 Notation M1 := (M (host v1ext)).
 
 Definition with_is (x : v1ext) (s : istate) : v1ext :=
-  mkExt (x_rv x) (x_params x) s (x_rp x) (x_entrypoint x) (x_digests x) (x_hashlog x) (x_unspec x) (x_lower x).
+  mkExt (x_rv x) (x_params x) s (x_rp x) (x_entrypoint x) (x_digests x) (x_hashlog x) (x_unspec x) (x_lower x) (x_exp x).
 Definition with_rv (x : v1ext) (r : list N) : v1ext :=
-  mkExt r (x_params x) (x_is x) (x_rp x) (x_entrypoint x) (x_digests x) (x_hashlog x) (x_unspec x) (x_lower x).
+  mkExt r (x_params x) (x_is x) (x_rp x) (x_entrypoint x) (x_digests x) (x_hashlog x) (x_unspec x) (x_lower x) (x_exp x).
 Definition with_params (x : v1ext) (p : list (list N)) : v1ext :=
-  mkExt (x_rv x) p (x_is x) (x_rp x) (x_entrypoint x) (x_digests x) (x_hashlog x) (x_unspec x) (x_lower x).
+  mkExt (x_rv x) p (x_is x) (x_rp x) (x_entrypoint x) (x_digests x) (x_hashlog x) (x_unspec x) (x_lower x) (x_exp x).
 Definition with_hash (x : v1ext) (d : list (list N)) (l : list (N * list N)) : v1ext :=
-  mkExt (x_rv x) (x_params x) (x_is x) (x_rp x) (x_entrypoint x) d l (x_unspec x) (x_lower x).
+  mkExt (x_rv x) (x_params x) (x_is x) (x_rp x) (x_entrypoint x) d l (x_unspec x) (x_lower x) (x_exp x).
 Definition with_flags (x : v1ext) (u l : bool) : v1ext :=
-  mkExt (x_rv x) (x_params x) (x_is x) (x_rp x) (x_entrypoint x) (x_digests x) (x_hashlog x) u l.
+  mkExt (x_rv x) (x_params x) (x_is x) (x_rp x) (x_entrypoint x) (x_digests x) (x_hashlog x) u l (x_exp x).
+Definition with_exp (x : v1ext) (e : list (list N)) : v1ext :=
+  mkExt (x_rv x) (x_params x) (x_is x) (x_rp x) (x_entrypoint x) (x_digests x) (x_hashlog x) (x_unspec x) (x_lower x) e.
 
 Definition get_x : M1 v1ext := h <- get_hs ;; ret (h_ext h).
 Definition set_x (x : v1ext) : M1 unit := h <- get_hs ;; set_hs (with_ext h x).
@@ -331,6 +337,17 @@ Definition get_parameter_section1 (param_num start length offset : N) : M1 (opti
   end.
 
 (** *** state_* wrappers *)
+(** the tree of the instance state (shape only) and the expanded-node bookkeeping *)
+Definition live_keys (es : list entry) : list (list N) :=
+  flat_map (fun e => match e_val e with Some _ => [e_key e] | None => [] end) es.
+Definition live_tree (s : istate) : option tr := tree_of (live_keys (is_entries s)).
+Definition get_exp : M1 (list (list N)) := x <- get_x ;; ret (x_exp x).
+Definition set_exp (e : list (list N)) : M1 unit := x <- get_x ;; set_x (with_exp x e).
+(** `counter.count_key_traverse_part(n)` summed up: `tick_energy(TREE_TRAVERSAL_STEP_COST * n)` *)
+(** ([EvFixed 0] is a marker without content: it lets the correspondence runner report how much of
+    the consumed energy is tree-traversal energy) *)
+Definition tick_tree (steps : N) : M1 unit := emit (EvFixed 0) ;;; tick (TREE_TRAVERSAL_STEP_COST * steps).
+
 Definition key_arg (charge_first : bool) (cost : N) (key_start key_len : N) : M1 (list N) :=
   key_end <- uadd key_start key_len ;;
   (if charge_first then tick cost ;;; ensure_fits (key_end)
@@ -340,6 +357,8 @@ Definition key_arg (charge_first : bool) (cost : N) (key_start key_len : N) : M1
 Definition state_lookup_entry (key_start key_len : N) : M1 (option N) :=
   key <- key_arg true (lookup_entry_cost key_len) key_start key_len ;;
   s <- get_is ;;
+  ex <- get_exp ;;
+  set_exp (exp_descend ex key (live_tree s)) ;;;                  (* get_entry: make_owned on the way down *)
   match find_live key (is_entries s) 0 with
   | Some id => set_is (is_push_handle s id) ;;; ret (Some (handle (is_gen s) (lenN (is_emap s))))
   | None => ret (Some U64MAX)
@@ -354,13 +373,16 @@ Definition state_create_entry (key_start key_len : N) : M1 (option N) :=
   if locked_key (is_locks s) key then ret (Some U64MAX)
   else
     emit (EvCopy (lenN key)) ;;;
+    ex <- get_exp ;;
     match find_live key (is_entries s) 0 with
     | Some id =>                                                 (* existing entry: value reset, same id *)
         let s' := is_with_entries s (setnthN id (mkEntry key (Some []) true) (is_entries s)) in
+        set_exp (exp_insert ex key (live_tree s) (live_tree s')) ;;;
         set_is (is_push_handle s' id) ;;; ret (Some (handle (is_gen s) (lenN (is_emap s))))
     | None =>
         let id := lenN (is_entries s) in
         let s' := is_with_entries s (is_entries s ++ [mkEntry key (Some []) true]) in
+        set_exp (exp_insert ex key (live_tree s) (live_tree s')) ;;;
         set_is (is_push_handle s' id) ;;; ret (Some (handle (is_gen s) (lenN (is_emap s))))
     end.
 
@@ -371,11 +393,17 @@ Definition state_delete_entry (key_start key_len : N) : M1 (option N) :=
   set_is s ;;;
   if negb (any_live (is_entries s)) then ret (Some 1)
   else if locked_key (is_locks s) key then ret (Some 0)
-  else match find_live key (is_entries s) 0 with
+  else
+    ex <- get_exp ;;
+    match find_live key (is_entries s) 0 with
        | Some id =>
-           set_is (is_with_entries s (setnthN id (mkEntry key None true) (is_entries s))) ;;;
+           let s' := is_with_entries s (setnthN id (mkEntry key None true) (is_entries s)) in
+           set_exp (exp_delete ex key true (live_tree s) (live_tree s')) ;;;
+           set_is s' ;;;
            ret (Some 2)
-       | None => ret (Some 1)
+       | None =>
+           set_exp (exp_delete ex key false (live_tree s) (live_tree s)) ;;;
+           ret (Some 1)
        end.
 
 Definition state_delete_prefix (key_start key_len : N) : M1 (option N) :=
@@ -385,19 +413,27 @@ Definition state_delete_prefix (key_start key_len : N) : M1 (option N) :=
   set_is s ;;;
   if negb (any_live (is_entries s)) then ret (Some 1)
   else if locked_prefix (is_locks s) key then ret (Some 0)
-  else match live_with_prefix key (is_entries s) 0 with
-       | [] => ret (Some 1)
+  else
+    ex <- get_exp ;;
+    match live_with_prefix key (is_entries s) 0 with
+       | [] => set_exp (exp_descend ex key (live_tree s)) ;;; ret (Some 1)
        | _ :: _ =>
-           flag_lower ;;;                                        (* the tree charges per traversed node *)
-           set_is (is_with_entries s
+           (* the tree charges per invalidated node: (stem length + 1) steps each, BEFORE the node's
+              entry is invalidated; the total is charged here before the entries change *)
+           tick_tree (delete_prefix_steps (exp_descend ex key (live_tree s)) key (live_tree s)) ;;;
+           let s' := is_with_entries s
                      (map (fun e => if is_prefix key (e_key e) then mkEntry (e_key e) None true else e)
-                          (is_entries s))) ;;;
+                          (is_entries s)) in
+           set_exp (exp_delete_prefix ex key (live_tree s) (live_tree s')) ;;;
+           set_is s' ;;;
            ret (Some 2)
        end.
 
 Definition state_iterator (prefix_start prefix_len : N) : M1 (option N) :=
   prefix <- key_arg false (new_iterator_cost prefix_len) prefix_start prefix_len ;;
   s <- get_is ;;
+  ex <- get_exp ;;
+  set_exp (exp_descend ex prefix (live_tree s)) ;;;               (* iter: make_owned on the way down *)
   match live_with_prefix prefix (is_entries s) 0 with
   | [] => ret (Some U64MAX)                                      (* OK_NONE *)
   | todo =>
@@ -423,7 +459,13 @@ Definition state_iterator_next (it : N) : M1 (option N) :=
   s <- get_is ;;
   match handle_iter s it with
   | Some (idx, Some i) =>
-      flag_lower ;;;
+      (* the walk to the next value charges per stem chunk / child step (HostTreeEnergy.dfs) *)
+      ex <- get_exp ;;
+      let exhausted := it_started i && (match it_todo i with [] => true | _ => false end)
+                         && list_eqb (it_key i) (it_exh i) in
+      let nc := next_cost (live_tree s) (it_root i) (it_started i) exhausted (it_key i) in
+      tick_tree (fst nc) ;;;
+      set_exp (addks (snd nc) ex) ;;;
       match it_todo i with
       | (k, id) :: rest =>
           let i' := mkIter (it_root i) rest k true (it_exh i) in
